@@ -333,7 +333,7 @@ func c15lRunOnce(m map[string]string) (string, time.Duration, bool) {
 		Rules:     []router.RuleConfig{{Forward: "up"}},
 		Limiter: router.LimiterConfig{
 			GlobalLimit: atoi(m["glob"]),
-			Client:      router.ClientLimiterConfig{Limit: 1, Burst: atoi(m["burst"]), V4Mask: atoi(m["v4"])},
+			Client:      router.ClientLimiterConfig{Limit: 1, Burst: atoi(m["burst"]), V4Mask: atoi(m["v4"]), V6Mask: atoi(m["v6"])},
 		},
 	}
 	c15lUDPDst = net.IPv4(127, 0, 0, 1)
@@ -443,6 +443,12 @@ func c15lGen(r *rand.Rand, thorough bool, emit func(c, cat string)) {
 		{fmt.Sprintf("glob=0 burst=10 v4=0 ops=u:%s,u:%s,u:%s,u:%s,u:%s,u:%s,u:%s,u:%s", a, a, a, a, a, a2, b, b), "udp-subnets"},
 		// the same on a udp listener bound to the wildcard address with multi_routes (clients talk to 127.0.0.2)
 		{fmt.Sprintf("glob=0 burst=10 v4=0 mr=1 ops=u:%s,u:%s,u:%s,u:%s,u:%s,u:%s,u:%s,u:%s", a, a, a, a, a, a2, b, b), "udp-subnets-multiroutes"},
+		// IPv6 masks as configured (direct calls of the admission function: loopback has one IPv6 address only):
+		// /128 every address its own client, /64 and the default /48 share, /72 splits inside a /64
+		{"glob=0 burst=4 v4=0 v6=128 ops=x:620010db8000000010000000000000001:3,x:620010db8000000010000000000000001:3,x:620010db8000000010000000000000002:3", "direct-v6-mask128"},
+		{"glob=0 burst=4 v4=0 v6=72 ops=x:620010db8000000010000000000000001:3,x:620010db80000000100ff000000000001:3,x:620010db8000000010000000000000002:3", "direct-v6-mask72"},
+		{"glob=0 burst=4 v4=0 v6=64 ops=x:620010db8000000010000000000000001:3,x:620010db80000000100ff000000000001:3,x:620010db8000000020000000000000001:3", "direct-v6-mask64"},
+		{"glob=0 burst=4 v4=0 v6=0 ops=x:620010db8000000010000000000000001:3,x:620010db8000000020000000000000001:3,x:620010db8000100010000000000000001:3", "direct-v6-default48"},
 		// TCP: connection cost 3, query cost 2, forward 3
 		{fmt.Sprintf("glob=0 burst=12 v4=0 ops=t:%s:4,t:%s:1,t:%s:2", a, a2, b), "tcp-subnets"},
 		// HTTP: 503
